@@ -95,8 +95,8 @@ def main(args):
     doc = {"tier": tier, "checks": props, "seeds_per_check": n, "runs_compared": len(first), "distinct_digests": distinct,
            "hash_seeds": [0, 12345] if tier == "quick" else [0, 1, 12345, 99], "fixed_findings_replayed": fixed_checked,
            "failures": failures, "wall_s": round(wall, 1)}
-    os.makedirs(os.path.join(VERIF, "evidence"), exist_ok=True)
-    with open(os.path.join(VERIF, "evidence", "selftest.json"), "w", encoding="utf-8") as fh:
+    os.makedirs(os.path.join(VERIF, "reports"), exist_ok=True)
+    with open(os.path.join(VERIF, "reports", "selftest.json"), "w", encoding="utf-8") as fh:
         json.dump(doc, fh, indent=1)
     for line in failures:
         print("SELFTEST-FAIL", line)
